@@ -353,6 +353,11 @@ class ExecutionState:
             current = parent
         return False
 
+    def mark_replaying(self) -> None:
+        """Enter replay mode: the history holds operations recorded by earlier invocations."""
+        with self._replay_status_lock:
+            self._replay_status = ReplayStatus.REPLAY
+
     def is_replaying(self) -> bool:
         """Check if execution is currently in replay mode.
 
